@@ -53,6 +53,8 @@ struct Succ<S> {
 }
 
 struct Acc<S> {
+    /// successors with a new key that could not be kept (memory cap of the level)
+    dropped: u64,
     fresh: Vec<Succ<S>>,
     merged: Vec<Succ<S>>,
     transitions: u64,
@@ -82,6 +84,8 @@ impl<'a, S: Clone + Send + Sync> Bfs<'a, S> {
                 stats.complete_depth = depth;
                 break;
             }
+            // invariants are still checked on every transition; only the storage of new states is capped
+            let fresh_cap_per_worker = (self.state_cap * 2) / self.threads.max(1) + 1;
             let audit_room = self.audit_cap.saturating_sub(audit_pool.len());
             let per_worker_audit = audit_room / self.threads.max(1) + 1;
             let res = par_for(
@@ -90,6 +94,7 @@ impl<'a, S: Clone + Send + Sync> Bfs<'a, S> {
                 16,
                 Some(self.deadline),
                 |_| Acc {
+                    dropped: 0,
                     fresh: Vec::new(),
                     merged: Vec::new(),
                     transitions: 0,
@@ -114,15 +119,19 @@ impl<'a, S: Clone + Send + Sync> Bfs<'a, S> {
                                 if acc.merged.len() < per_worker_audit {
                                     acc.merged.push(rec);
                                 }
-                            } else {
+                            } else if acc.fresh.len() < fresh_cap_per_worker {
                                 acc.fresh.push(rec);
+                            } else {
+                                acc.dropped += 1;
                             }
                         }
                     }
                 },
             );
             let mut fresh: Vec<Succ<S>> = Vec::new();
+            let mut dropped = 0u64;
             for mut a in res.accs {
+                dropped += a.dropped;
                 stats.transitions += a.transitions;
                 stats.merged += a.merged_count;
                 for m in a.merged.drain(..) {
@@ -133,9 +142,16 @@ impl<'a, S: Clone + Send + Sync> Bfs<'a, S> {
                 }
                 fresh.append(&mut a.fresh);
             }
+            if dropped > 0 {
+                stats.capped = Some(format!(
+                    "state cap: {} new states of depth {} were checked but not stored (their successors are not explored)",
+                    dropped,
+                    depth + 1
+                ));
+            }
             if !res.complete {
                 stats.capped = Some(format!(
-                    "wall budget reached while expanding depth {} ({} of {} states expanded)",
+                    "wall or memory budget reached while expanding depth {} ({} of {} states expanded)",
                     depth,
                     res.processed,
                     frontier.len()
